@@ -101,7 +101,12 @@ pub struct QuerySpec {
 pub enum Op {
     Register { i: usize, ver: u8 },
     Unregister { i: usize },
-    Conflict { i: usize },
+    Conflict {
+        i: usize,
+        /// the conflicting response also claims the service's host name with another address
+        #[serde(default)]
+        host: bool,
+    },
     Advance { ms: u64 },
     Query(QuerySpec),
 }
@@ -245,7 +250,7 @@ pub fn execute(case: &Case, seed: u64) -> Result<Run, String> {
                     regs_since_unreg[i] = 0;
                 }
             }
-            Op::Conflict { i } => {
+            Op::Conflict { i, host } => {
                 let i = *i % n;
                 let announced = w.daemons[di].log[reg_pos[i]..].iter().any(|e| match &e.ev {
                     Ev::Tx(tx) => tx
@@ -258,12 +263,15 @@ pub fn execute(case: &Case, seed: u64) -> Result<Run, String> {
                     continue;
                 }
                 let mut name = Name::from_escaped(&case.fullname_text(i));
+                let mut host_name: Option<Name> = None;
                 for e in w.daemons[di].log.iter().rev() {
                     if let Ev::Tx(tx) = &e.ev {
                         if let Some(m) = &tx.msg {
                             if !m.is_response() {
                                 if let Some(r) = m.authorities.iter().find(|r| wire::txt_has(r, &id_attr(i))) {
                                     name = r.name.clone();
+                                    // the host name being probed along with it (if it is)
+                                    host_name = m.authorities.iter().filter(|r2| r2.name == r.name).find_map(|r2| wire::srv_of(r2).map(|(_, h)| h.clone())).filter(|h| m.questions.iter().any(|q| q.name.eq_ignore_case(h)));
                                     break;
                                 }
                             }
@@ -288,7 +296,15 @@ pub fn execute(case: &Case, seed: u64) -> Result<Run, String> {
                     } else {
                         SocketAddr::new(IpAddr::V6(subnet_v6(k, 99)), MDNS_PORT)
                     };
-                    w.daemons[di].inject(if_index(k), src, peer::response(vec![rec.clone()], vec![]));
+                    let mut recs = vec![rec.clone()];
+                    // (a host name shared with another registration is left alone: what a lost host name
+                    // means for a service that is announced already is C08's subject, not this model's)
+                    let shared = (0..n).any(|j| j != i && case.host_text(j).eq_ignore_ascii_case(&case.host_text(i)));
+                    if let (true, false, Some(h)) = (*host, shared, host_name.as_ref()) {
+                        let a = if case.ifs[k].v4 { IpAddr::V4(subnet_v4(k, 98)) } else { IpAddr::V6(subnet_v6(k, 98)) };
+                        recs.push(peer::addr_rec(h, a, 120, true));
+                    }
+                    w.daemons[di].inject(if_index(k), src, peer::response(recs, vec![]));
                 }
             }
             Op::Advance { ms } => w.advance(*ms),
@@ -1177,7 +1193,7 @@ pub fn case_strategy(ka_weight: f64, boundary: bool, max_known: usize) -> BoxedS
     let op = prop_oneof![
         4 => (0usize..3, 0u8..3).prop_map(|(i, ver)| Op::Register { i, ver }),
         1 => (0usize..3).prop_map(|i| Op::Unregister { i }),
-        1 => (0usize..3).prop_map(|i| Op::Conflict { i }),
+        1 => (0usize..3, any::<bool>()).prop_map(|(i, host)| Op::Conflict { i, host }),
         5 => prop_oneof![1 => Just(0u64), 1 => Just(300), 2 => Just(760), 3 => Just(1100), 2 => Just(2100), 2 => Just(5500), 2 => 0u64..2500].prop_map(|ms| Op::Advance { ms }),
         8 => query_strategy(ka_weight, boundary, max_known).prop_map(Op::Query),
     ];
@@ -1204,7 +1220,7 @@ pub fn case_strategy(ka_weight: f64, boundary: bool, max_known: usize) -> BoxedS
                     // a service that loses its name while probing and is announced renamed
                     svcs[0].probe = true;
                     ops.insert(0, Op::Register { i: 0, ver: 0 });
-                    ops.insert(1, Op::Conflict { i: 0 });
+                    ops.insert(1, Op::Conflict { i: 0, host: false });
                     ops.insert(2, Op::Advance { ms: 2300 });
                 }
                 _ => {
